@@ -43,6 +43,8 @@ type Behav struct {
 	Probe []string `json:"probe,omitempty"`
 	// Code: rendered verbatim after every type's marker (render mode).
 	Code string `json:"code,omitempty"`
+	// Others: in the error / bad-syntax modes, what is returned for the types other than At: "" nil, "ignore", "skip".
+	Others string `json:"others,omitempty"`
 }
 
 type GenSpec struct {
@@ -208,10 +210,23 @@ func Build(specs []GenSpec) []gengo.Generator {
 				if idx == bh.At {
 					return fmt.Errorf("type %s: %w", name, ErrInjected)
 				}
+				switch bh.Others {
+				case "ignore":
+					return gengo.ErrIgnore
+				case "skip":
+					return gengo.ErrSkip
+				}
 			case "bad-syntax":
 				render(c, bh, name)
 				if idx == bh.At {
 					c.RenderT([]string{"func broken( {\n", "var s = \"unterminated\n", "}\n", "type T struct {\n", "var x = 08\n", "func f() { return }}\n"}[bh.At%6])
+				} else {
+					switch bh.Others {
+					case "ignore":
+						return gengo.ErrIgnore
+					case "skip":
+						return gengo.ErrSkip
+					}
 				}
 			case "kill":
 				render(c, bh, name)
